@@ -38,7 +38,7 @@ const fanout = 64
 
 // Case is one replayable case.
 type Case struct {
-	Space  string `json:"space"`  // subset | size | seq | ctx | reentrant
+	Space  string `json:"space"`  // subset | size | seq | ctx | reentrant | mem
 	Kind   string `json:"kind"`   // name | num
 	Entry  string `json:"entry"`  // Write | WriteMap | Embed
 	Config string `json:"config"` // v14 | v17 | v20hr
@@ -65,6 +65,16 @@ type Case struct {
 	Reader string   `json:"reader,omitempty"`
 	At     int      `json:"at,omitempty"`
 	Ops    []string `json:"ops,omitempty"`
+	// mem (c17mem.go): ONE in-memory tree value (Origin = literal |
+	// extracted) whose Data map starts as the subset Mask of the first Mini
+	// keys of the kind's small universe (Mini > 0) or as the key set of a size
+	// case (Family, N, Parity); the operations Ops are executed on it in order
+	// ("A" All, "B" All left after one entry, "L" Lookup of every universe key,
+	// "E" Embed into a fresh file, "R:i:j" delete universe key i and store
+	// key j, "+:j" store key j, "-:i" delete key i, "V:i" store another value
+	// under key i), then A, L, E
+	Origin string `json:"origin,omitempty"`
+	Mini   int    `json:"mini,omitempty"`
 }
 
 type failure struct {
@@ -99,6 +109,11 @@ type api[K cmp.Ordered] struct {
 	universe []K // subset space
 	seqAlpha []K // seq space
 	family   func(name string, m int) ([]K, error)
+
+	// space mem (set by the init of c17mem.go)
+	newMem      func(map[K]pdf.Object) *memObj[K]
+	asMem       func(tree[K]) *memObj[K]
+	memUniverse []K
 }
 
 var nameAPI = &api[pdf.Name]{
@@ -1044,6 +1059,10 @@ func (rn *runner) one(c Case) {
 		v = judgeCtx(nameAPI, c)
 	case c.Kind == "num" && c.Space == "ctx":
 		v = judgeCtx(numAPI, c)
+	case c.Kind == "name" && c.Space == "mem":
+		v = judgeMem(nameAPI, c)
+	case c.Kind == "num" && c.Space == "mem":
+		v = judgeMem(numAPI, c)
 	case c.Kind == "name" && c.Space == "reentrant":
 		v = judgeReentrant(nameAPI, c)
 	case c.Kind == "num" && c.Space == "reentrant":
@@ -1184,6 +1203,9 @@ func selfTest() error {
 	if err := reSelfTest(); err != nil {
 		return err
 	}
+	if err := memSelfTest(); err != nil {
+		return err
+	}
 	if u := nameUniverse(); len(u) != 21 || !nameAPI.ascending(u) || len(quick14) != 14 {
 		return errors.New("self-test: name universe")
 	}
@@ -1226,7 +1248,7 @@ func Run(tier string) int {
 	}
 	r := ev.New("C17", tier, "exploration", budget)
 	rn := &runner{r}
-	r.Rule("a case = (tree kind, finite map, entry point, file configuration): the map is written into a fresh file, the file is closed, reopened with pdf.NewReader and judged against the map (Lookup of every universe key with both readers, All, Size, raw node structure); an evaluation = one tree written and judged; distinct = distinct (space, kind, key set) with at least two keys. Space ctx: the same with the tree written in a writer context (a stream open on the Writer, neighbour objects, a second tree, hooks inside the key sequence); distinct = distinct (key set, entry point, context). Space reentrant: a case = (tree, reader, position of a first enumeration, program of Lookup / start All / take one entry / abandon operations) on ONE reader object, every observation compared with the sorted-map model; an evaluation = one program executed on a fresh reader object; distinct = distinct programs with at least one operation")
+	r.Rule("a case = (tree kind, finite map, entry point, file configuration): the map is written into a fresh file, the file is closed, reopened with pdf.NewReader and judged against the map (Lookup of every universe key with both readers, All, Size, raw node structure); an evaluation = one tree written and judged; distinct = distinct (space, kind, key set) with at least two keys. Space ctx: the same with the tree written in a writer context (a stream open on the Writer, neighbour objects, a second tree, hooks inside the key sequence); distinct = distinct (key set, entry point, context). Space reentrant: a case = (tree, reader, position of a first enumeration, program of Lookup / start All / take one entry / abandon operations) on ONE reader object, every observation compared with the sorted-map model; an evaluation = one program executed on a fresh reader object; distinct = distinct programs with at least one operation. Space mem: a case = (ONE nametree/numtree.InMemory value, program of All / Lookup / Embed / edits of its Data map); every observation is compared with the sorted-map model of Data at that moment and every tree written by Embed is judged like every other written tree; an evaluation = one program executed on a fresh value; distinct = distinct programs with at least one operation")
 	r.Assume("pdf.Writer.Put / pdf.Reader.Get transport node dictionaries faithfully (decided by C01-C04); the structure judge is written from ISO 32000-2 7.9.6/7.9.7 and self-tested on hand-made trees",
 		"fan-out bound 64 = maxChildren of internal/pdftree/write.go",
 		"values are direct objects of 9 kinds (integer, string, reference, dict, name, array, real, nested array, array of reference); streams as values are not enumerated")
@@ -1408,6 +1430,8 @@ func Run(tier string) int {
 	// ---- (6) writer contexts, (7) reader re-entrancy (c17ext.go) -----------
 	runContexts(r, rn)
 	runReentrant(r, rn)
+	// ---- (8) one in-memory tree value used more than once (c17mem.go) -------
+	runMem(r, rn)
 
 	// ---- (5) all subsets of the name universe, last because it is the longest
 	done := r.Counter("name_subsets_completed")
